@@ -540,7 +540,49 @@ Proof.
   destruct (run_handler h s arg data) as [s1|c s1]; cbn [eres_st] in *.
   - destruct (_ && _ && _); [apply with_vi_inv|]; now apply fix_vi_inv.
   - destruct (c =? E_READONLY); cbn [eres_st]; [|exact H1].
-    destruct (_ && _ && _); [apply with_vi_inv|]; exact H1.
+    destruct (_ && _ && _); [apply with_vi_inv|]; now apply fix_vi_inv.
+Qed.
+
+(* After every command that _call_handler completes (the handler returned, or
+   its EditReadOnlyBuffer was swallowed): if the editor is then in Vi
+   navigation mode, the cursor does not rest past the last character of a
+   non-empty line. *)
+Lemma set_cursor_nav s v : vi_navigation_mode (set_cursor s v) = vi_navigation_mode s.
+Proof. unfold set_cursor. destruct (_ =? ec s); reflexivity. Qed.
+
+Lemma fix_vi_nav s : vi_navigation_mode (fix_vi_cursor_position s) = vi_navigation_mode s.
+Proof.
+  unfold fix_vi_cursor_position. destruct (_ && _ && _); [|reflexivity].
+  unfold with_pref. rewrite <- (set_cursor_nav s (ec s - 1)). reflexivity.
+Qed.
+
+Lemma leave_nav_rests (b : bool) s1 :
+  let s' := if b then with_vi s1 (vmode s1) (vop s1) (voparg s1) (vdig s1) false else s1 in
+  vi_navigation_mode s' = true -> vi_navigation_mode s1 = true /\ rests_past_end s' = rests_past_end s1.
+Proof.
+  destruct b; cbn zeta; [|tauto]. intros H. split; [|reflexivity].
+  unfold vi_navigation_mode in *; cbn [evi vop vdig esel vmode vtemp ero with_vi] in H.
+  apply andb_true_iff in H as [H H5]. rewrite H. cbn [andb].
+  rewrite orb_false_r in H5. apply orb_true_iff in H5 as [H5|H5]; rewrite H5; rewrite ?orb_true_r; reflexivity.
+Qed.
+
+Lemma call_handler_rests h s arg data s' :
+  EInv s -> call_handler h s arg data = EOk s' ->
+  vi_navigation_mode s' = true -> rests_past_end s' = false.
+Proof.
+  intros H Hc Hnav. unfold call_handler in Hc.
+  pose proof (run_handler_inv h s arg data H) as HI.
+  assert (Hgen : forall s1, EInv s1 ->
+            EOk ((fun s1 => if vtemp s && evi s1 && negb (vop s1)
+                            then with_vi s1 (vmode s1) (vop s1) (voparg s1) (vdig s1) false else s1)
+                   (fix_vi_cursor_position s1)) = EOk s' -> rests_past_end s' = false).
+  { intros s1 [HC1 _] E. injection E as <-.
+    destruct (leave_nav_rests (vtemp s && evi (fix_vi_cursor_position s1) && negb (vop (fix_vi_cursor_position s1)))
+                (fix_vi_cursor_position s1) Hnav) as [Hn ->].
+    rewrite fix_vi_nav in Hn. now apply fix_vi_rests. }
+  destruct (run_handler h s arg data) as [s1|c s1]; cbn [eres_st] in HI.
+  - now apply (Hgen s1).
+  - destruct (c =? E_READONLY); [now apply (Hgen s1)|discriminate].
 Qed.
 
 (* which exceptions can leave a modelled handler *)
